@@ -197,6 +197,9 @@ func (g *tgen) fill(dir string, depth int, want int) {
 			flag := "g0"
 			if g.rng.Intn(5) < 2 {
 				flag = "g1"
+				if g.rng.Intn(2) == 0 {
+					flag = []string{"g1:trailer", "g1:middle", "g1:aftercomment", "g1:indent", "g1:crlf", "g1:noeol"}[g.rng.Intn(6)]
+				}
 			} else {
 				g.nNoPkg++
 			}
